@@ -48,7 +48,20 @@ func (sig *Signature) Deserialize(b []byte) error {
 	if len(b) == 0 {
 		return fmt.Errorf("signature Deserialized failed.")
 	}
-	sig.value.Unmarshal(b)
+	return sig.unmarshalExact(b)
+}
+
+// unmarshalExact accepts exactly one canonical point encoding: a parse error
+// or trailing bytes leave the signature nil, so that it never verifies.
+func (sig *Signature) unmarshalExact(b []byte) error {
+	rest, err := sig.value.Unmarshal(b)
+	if err == nil && len(rest) != 0 {
+		err = fmt.Errorf("signature Deserialized failed: %d trailing bytes", len(rest))
+	}
+	if err != nil {
+		sig.value = bn_curve.G1{}
+		return err
+	}
 	return nil
 }
 
@@ -66,8 +79,7 @@ func (sig *Signature) SetHexString(s string) error {
 		sig.value = bn_curve.G1{}
 	}
 
-	sig.value.Unmarshal(common.Hex2Bytes(buf))
-	return nil
+	return sig.unmarshalExact(common.Hex2Bytes(buf))
 }
 
 func (sig *Signature) IsNil() bool {
